@@ -379,6 +379,14 @@ let run_case (line : string) : string =
   | "DEC0" -> outcome print_mres (M.m_decode M.default_opts (bytes_of_hex (arg 1)))
   | "DECR" ->
     outcome (fun x -> print_mres x ^ " viol=0") (M.m_decode (opts_of (arg 1)) (bytes_of_hex (arg 2)))
+  | "DECSEQ" ->
+    let o = opts_of (arg 1) in
+    let rec go b k acc =
+      if b = [] || k = 0 then String.concat " | " (List.rev acc)
+      else match M.m_decode o b with
+        | M.Val ((M.Ok _, rest) as x) -> go rest (k - 1) (print_mres x :: acc)
+        | other -> String.concat " | " (List.rev (outcome print_mres other :: acc)) in
+    go (bytes_of_hex (arg 2)) 64 []
   | "AVPS" -> outcome print_avpres (M.m_avps (bytes_of_hex (arg 1)))
   | "AVPSR" -> outcome (fun x -> print_avpres x ^ " viol=0") (M.m_avps (bytes_of_hex (arg 1)))
   | "TYPE" ->
